@@ -8,7 +8,7 @@
    -X; `spath g D [] s t p` says p is a simple path s -> t through pairs that have a price
    point at D, `at_most_one_path` that there is no second one (the property's quantifier:
    an edge, a reversed edge, a simple chain). *)
-From LedgerV Require Import Base.Prelude Gen.PriceMemo Gen.CostDate Gen.PercentExpr Model.Prices Proofs.PricesProofs.
+From LedgerV Require Import Base.Prelude Gen.PriceMemo Gen.CostDate Gen.PercentExpr Gen.FindPriceDispatch Model.Prices Proofs.PricesProofs.
 Local Open Scope Z_scope.
 
 (* ---- which entry an edge offers: the latest not after D, the later insertion winning a tie ---- *)
@@ -166,6 +166,37 @@ Theorem percent_is_quotient_of_values : forall l held pheld t D cn qn cd qd,
   exists q, percent_row l held pheld (Some t) D = PVal q /\ (q == 100 * qn / qd)%Q.
 Proof. exact percent_row_quotient. Qed.
 Print Assumptions percent_is_quotient_of_values.
+
+(* ---- -V: the target is the default commodity when one is declared ---- *)
+Theorem find_price_dispatches_on_target :
+  find_price_dispatch_recognised = true /\ find_price_dispatch_on_target = true.
+Proof. exact dispatch_on_target. Qed.
+Print Assumptions find_price_dispatches_on_target.
+
+Theorem lookup_target_defaults : forall g dflt src commodity D,
+  lookup g dflt src commodity D =
+  match (match commodity with Some c => Some c | None => dflt end) with
+  | Some t => find_price g src t D
+  | None => find_price_any g src D
+  end.
+Proof. exact lookup_spec. Qed.
+Print Assumptions lookup_target_defaults.
+
+Theorem V_with_default_commodity_is_X : forall g prims t a D,
+  mem (hc a) prims = false -> hlot a = None -> hc a <> t ->
+  value g (mkCtx prims (Some t)) a None D = value g (mkCtx prims (Some t)) a (Some t) D.
+Proof. exact value_V_default. Qed.
+Print Assumptions V_with_default_commodity_is_X.
+
+Theorem V_without_default_uses_nearest_quote : forall g prims a D,
+  mem (hc a) prims = false -> hlot a = None ->
+  value g (mkCtx prims None) a None D =
+  match find_price_any g (hc a) D with
+  | Some p => Some (Qred (pq p * hq a), pc p)
+  | None => None
+  end.
+Proof. exact value_V_plain. Qed.
+Print Assumptions V_without_default_uses_nearest_quote.
 
 (* ---- the memo of commodity_t::find_price ---- *)
 (* Recording a price clears every commodity's memo (commodity.cc:62-66): memoised lookups
